@@ -345,11 +345,10 @@ open_dump(kdump_ctx_t *ctx)
 			ctx->shared->ops->attr_cleanup(ctx->dict);
 		if (ctx->shared->ops->cleanup)
 			ctx->shared->ops->cleanup(ctx->shared);
-		if (ret != KDUMP_NOPROBE) {
-			ctx->shared->ops = NULL;
-			return ret;
-		}
 
+		/* Do not leave a half-initialized format behind,
+		 * whatever the reason of the failure.
+		 */
 		ctx->shared->ops = NULL;
 		if (ctx->shared->cache) {
 			/* The statistics attributes point into the cache. */
@@ -359,6 +358,8 @@ open_dump(kdump_ctx_t *ctx)
 			ctx->shared->cache = NULL;
 		}
 		clear_volatile_attrs(ctx);
+		if (ret != KDUMP_NOPROBE)
+			return ret;
 		clear_error(ctx);
 	}
 
